@@ -32,6 +32,49 @@ FINDING_PROGRAMS = [
 ]
 
 
+def expr_grid_programs(seed):
+    """Deterministic arithmetic-expression grid (MiniElk s-expressions): every combination of the five Int
+    operators in three nesting shapes over five operands, a few hundred printed lines per program.
+    Expressions that would divide by zero are left out (evaluated here with truncating semantics)."""
+    import itertools
+    ops = ["add", "sub", "mul", "div", "mod"]
+    vals = {"a": 17 + seed % 3, "b": 5, "c": 3, "d": -11, "e": 4}
+
+    def ev(t):
+        if isinstance(t, str):
+            return vals[t]
+        op, x, y = t
+        x, y = ev(x), ev(y)
+        if x is None or y is None:
+            return None
+        if op == "add":
+            return x + y
+        if op == "sub":
+            return x - y
+        if op == "mul":
+            return x * y
+        if y == 0:
+            return None
+        q = abs(x) // abs(y) * (1 if (x >= 0) == (y >= 0) else -1)
+        return q if op == "div" else x - q * y
+
+    def sx(t):
+        return f"(var {t})" if isinstance(t, str) else f"(bin {t[0]} {sx(t[1])} {sx(t[2])})"
+    exprs = []
+    for o1, o2, o3, o4 in itertools.product(ops, repeat=4):
+        exprs.append((o3, (o2, (o1, "a", "b"), "c"), (o4, "d", "e")))
+    for o1, o2, o3 in itertools.product(ops, repeat=3):
+        exprs.append((o1, "a", (o2, "b", (o3, "c", "d"))))
+        exprs.append((o1, (o2, "a", "b"), (o3, "c", "d")))
+    exprs = [t for t in exprs if ev(t) is not None]
+    decls = " ".join(f"(decl {k} _ (int {v}))" for k, v in vals.items())
+    progs = []
+    for i in range(0, len(exprs), 300):
+        body = " ".join(f"(print {sx(t)})" for t in exprs[i:i + 300])
+        progs.append(f"(prog G{seed}x{i} (defs) (main {decls} {body}))")
+    return progs
+
+
 def native_translate(srcs):
     return vlib.run_programs([{"id": f"n{i}", "src": s, "name": f"/tmp/n{i}.elk"} for i, s in enumerate(srcs)], sub="native")
 
@@ -129,7 +172,7 @@ def run(ctx):
     if ctx.replay:
         sexprs = [json.load(open(ctx.replay))["input"]["sexpr"]]
     else:
-        sexprs = mini_common.corpus_programs("C09")
+        sexprs = mini_common.corpus_programs("C09") + expr_grid_programs(ctx.seed)
         for i in range(ctx.n(20, 1500)):
             g = mini_gen.Gen(ctx.rng, mini_gen.Knobs(**KNOBS), modname=f"B{ctx.seed}x{i}")
             sexprs.append(g.program())
